@@ -1193,9 +1193,12 @@ func verifyGitObjectAndAttestations(ctx context.Context, policy *State, target s
 			// explicitly not looking at the attestation
 			// that applies to the _push_
 			// thus, we also set threshold to 1
-			verifier.threshold = 1
+			// This is set on a copy: the verifiers are memoized in the
+			// policy state and decide the entries that follow as well
+			tagObjVerifier := *verifier
+			tagObjVerifier.threshold = 1
 
-			_, err := verifier.Verify(ctx, options.tagObjectID, nil)
+			_, err := tagObjVerifier.Verify(ctx, options.tagObjectID, nil)
 			if err == nil {
 				// Signature verification succeeded
 				tagObjVerified = true
